@@ -1254,6 +1254,7 @@ fn families(ctx: &Ctx, sink: Sink) {
             sink(scenario_item("event-fields", ""));
             sink(scenario_item("readonly", ""));
             sink(scenario_item("sysvar-data", ""));
+            sink(scenario_item("event-copy-alias", ""));
         }
         "C08" if ctx.has("--ecma") => {
             let o = Opts {
@@ -1709,6 +1710,73 @@ fn scenario_null_content(ctx: &Ctx, out: &mut WorkerOut, index: usize) {
             }
             run.finish();
         }
+    }
+}
+
+/// C09 (rfsm-expression): _event stays unchanged while the event is processed even when content copies its
+/// structured data into a variable (or iterates over it) and writes through the copy.
+fn scenario_event_copy_alias(ctx: &Ctx, out: &mut WorkerOut, index: usize) {
+    let writes: Vec<(&str, &str)> = vec![
+        ("copy-data-member", r#"<assign location="cp" expr="_event.data"/><assign location="cp.n" expr="2"/>"#),
+        ("copy-event-name", r#"<assign location="cp" expr="_event"/><assign location="cp.name" expr="'forged'"/>"#),
+        ("copy-nested-element", r#"<assign location="cp" expr="_event.data.xs"/><assign location="cp[0]" expr="99"/>"#),
+        ("foreach-item-member", r#"<foreach array="_event.data.ms" item="it"><assign location="it.v" expr="0"/></foreach>"#),
+    ];
+    for (wname, w) in writes {
+        let xml = format!(
+            r#"<scxml {ns} datamodel="rfsm-expression" name="alias"><datamodel><data id="cp" expr="0"/><data id="it" expr="0"/></datamodel>
+<state id="s"><transition event="ev" target="t">{w}</transition></state>
+<state id="t"><onentry><script>mark('rb', _event.name, _event.data.n, (_event.data.xs)[0], ((_event.data.ms)[0]).v)</script></onentry></state></scxml>"#,
+            ns = XMLNS,
+            w = w
+        );
+        let replay = json!({"engine":"e1","index": index, "xml": xml, "write": wname});
+        let mut run = match Run::start(&xml, std::time::Duration::from_secs(20)) {
+            Ok(r) => r,
+            Err(e) => {
+                out.violation(ctx, "scenario-start", "scenario-start", &format!("{:?}", e), replay);
+                continue;
+            }
+        };
+        out.add("runs", 1);
+        let mut ok = run.wait_idle(1) == Wait::Idle;
+        if ok {
+            let mut m = std::collections::HashMap::new();
+            m.insert("v".to_string(), rufsm::datamodel::create_data_arc(Data::Integer(7)));
+            let ms = Data::Array(vec![rufsm::datamodel::create_data_arc(Data::Map(m))]);
+            let xs = Data::Array(vec![rufsm::datamodel::create_data_arc(Data::Integer(5)), rufsm::datamodel::create_data_arc(Data::Integer(6))]);
+            run.send(ev_with("ev", Some(vec![("n", Data::Integer(1)), ("xs", xs), ("ms", ms)]), None, None, None, None));
+            ok = run.wait_idle(2) == Wait::Idle;
+            out.add("edges", 1);
+        }
+        if !ok {
+            out.violation(ctx, "session-stops-responding", &format!("event-copy-alias:no-idle:{}", wname), &format!("{:?}", take_panics()), replay);
+            run.finish();
+            continue;
+        }
+        let rb: Vec<Vec<String>> = run
+            .log
+            .snapshot()
+            .iter()
+            .filter_map(|(_, r)| match r {
+                Rec::Mark { args, .. } if args.first().map(|a| a == "rb").unwrap_or(false) => Some(args[1..].to_vec()),
+                _ => None,
+            })
+            .collect();
+        let want = vec![vec!["ev".to_string(), "1".to_string(), "5".to_string(), "7".to_string()]];
+        out.add("ref_comparisons", 1);
+        if rb != want {
+            out.violation(
+                ctx,
+                "system-variable-modified",
+                &format!("event-copy-alias:{}", wname),
+                &format!("content {} ran while event ev (data n=1, xs=[5,6], ms=[{{v:7}}]) was processed; afterwards _event reads (name, n, xs[0], ms[0].v) = {:?}, the event that was received has {:?}", w, rb, want),
+                replay,
+            );
+        } else {
+            out.outcomes.insert(format!("event-copy-alias|{}|intact", wname));
+        }
+        run.finish();
     }
 }
 
@@ -2253,6 +2321,7 @@ fn run_scenario(ctx: &Ctx, out: &mut WorkerOut, index: usize, name: &str, _label
     }
     match name {
         "null-content" => scenario_null_content(ctx, out, index),
+        "event-copy-alias" => scenario_event_copy_alias(ctx, out, index),
         "foreach-sources" => scenario_foreach_sources(ctx, out, index, "rfsm-expression"),
         "foreach-sources@ecmascript" => scenario_foreach_sources(ctx, out, index, "ecmascript"),
         "event-fields" => scenario_event_fields(ctx, out, index, "rfsm-expression"),
